@@ -30,6 +30,7 @@ import (
 	"fmt"
 	"io"
 	"io/ioutil"
+	"math"
 	"net"
 	"runtime"
 	"strings"
@@ -401,6 +402,10 @@ type framer struct {
 
 	buf []byte
 
+	// the first length or count that did not fit the [short] announcing it while the
+	// current frame was being written; reported by finish
+	shortErr error
+
 	customPayload map[string][]byte
 }
 
@@ -723,6 +728,7 @@ func (f *framer) readErrorMap() (errMap ErrorMap) {
 
 func (f *framer) writeHeader(flags byte, op frameOp, stream int) {
 	f.buf = f.buf[:0]
+	f.shortErr = nil
 	f.buf = append(f.buf,
 		f.proto,
 		flags,
@@ -762,6 +768,10 @@ func (f *framer) setLength(length int) {
 }
 
 func (f *framer) finish() error {
+	if f.shortErr != nil {
+		return f.shortErr
+	}
+
 	if len(f.buf) > maxFrameSize {
 		// huge app frame, lets remove it so it doesn't bloat the heap
 		f.buf = make([]byte, defaultBufSize)
@@ -1518,7 +1528,7 @@ func (f *framer) writeQueryParams(opts *queryParams) {
 	}
 
 	if n := len(opts.values); n > 0 {
-		f.writeShort(uint16(n))
+		f.writeShortLen("number of query values", n)
 
 		for i := 0; i < n; i++ {
 			if names {
@@ -1625,7 +1635,7 @@ func (f *framer) writeExecuteFrame(streamID int, preparedID []byte, params *quer
 		f.writeQueryParams(params)
 	} else {
 		n := len(params.values)
-		f.writeShort(uint16(n))
+		f.writeShortLen("number of query values", n)
 		for i := 0; i < n; i++ {
 			if params.values[i].isUnset {
 				f.writeUnset()
@@ -1674,7 +1684,7 @@ func (f *framer) writeBatchFrame(streamID int, w *writeBatchFrame, customPayload
 	f.writeByte(byte(w.typ))
 
 	n := len(w.statements)
-	f.writeShort(uint16(n))
+	f.writeShortLen("number of batch statements", n)
 
 	var flags byte
 
@@ -1688,7 +1698,7 @@ func (f *framer) writeBatchFrame(streamID int, w *writeBatchFrame, customPayload
 			f.writeShortBytes(b.preparedID)
 		}
 
-		f.writeShort(uint16(len(b.values)))
+		f.writeShortLen("number of values of a batch statement", len(b.values))
 		for j := range b.values {
 			col := b.values[j]
 			if f.proto > protoVersion2 && col.name != "" {
@@ -2005,12 +2015,21 @@ func (f *framer) writeShort(n uint16) {
 	f.buf = appendShort(f.buf, n)
 }
 
+// writeShortLen writes a length or count that the protocol carries in a [short]. A value
+// that does not fit makes finish fail instead of putting a wrapped length on the wire.
+func (f *framer) writeShortLen(what string, n int) {
+	if n > math.MaxUint16 && f.shortErr == nil {
+		f.shortErr = fmt.Errorf("gocql: %s exceeds the protocol limit: %d > %d", what, n, math.MaxUint16)
+	}
+	f.writeShort(uint16(n))
+}
+
 func (f *framer) writeLong(n int64) {
 	f.buf = appendLong(f.buf, n)
 }
 
 func (f *framer) writeString(s string) {
-	f.writeShort(uint16(len(s)))
+	f.writeShortLen("string length", len(s))
 	f.buf = append(f.buf, s...)
 }
 
@@ -2020,7 +2039,7 @@ func (f *framer) writeLongString(s string) {
 }
 
 func (f *framer) writeStringList(l []string) {
-	f.writeShort(uint16(len(l)))
+	f.writeShortLen("string list length", len(l))
 	for _, s := range l {
 		f.writeString(s)
 	}
@@ -2047,7 +2066,7 @@ func (f *framer) writeBytes(p []byte) {
 }
 
 func (f *framer) writeShortBytes(p []byte) {
-	f.writeShort(uint16(len(p)))
+	f.writeShortLen("short bytes length", len(p))
 	f.buf = append(f.buf, p...)
 }
 
@@ -2056,7 +2075,7 @@ func (f *framer) writeConsistency(cons Consistency) {
 }
 
 func (f *framer) writeStringMap(m map[string]string) {
-	f.writeShort(uint16(len(m)))
+	f.writeShortLen("string map size", len(m))
 	for k, v := range m {
 		f.writeString(k)
 		f.writeString(v)
@@ -2064,7 +2083,7 @@ func (f *framer) writeStringMap(m map[string]string) {
 }
 
 func (f *framer) writeBytesMap(m map[string][]byte) {
-	f.writeShort(uint16(len(m)))
+	f.writeShortLen("bytes map size", len(m))
 	for k, v := range m {
 		f.writeString(k)
 		f.writeBytes(v)
